@@ -19,7 +19,9 @@ RULE = (
     "Generated cases = rate in {1000,8000,16000} x window w from decimal literals {0.005..0.2} x "
     "(min_dur,max_dur,max_silence) built as Decimal(k)*Decimal(w) -> float (multiples whose float quotient "
     "is often not an integer: 0.07/0.01, 0.14/0.02 ...) or clear non-multiples ((k+1/3)w, (k+1/2)w) x "
-    "drop/strict x input kind (bytes + analysis_window, or AudioReader(block_dur=w)) x a recording made of "
+    "drop/strict x input kind (bytes + analysis_window, or AudioReader(block_dur=w)) - a quarter of the cases with a "
+    "window of B+1/4, B+1/2 or B+3/4 samples, where blocks hold B samples but a non-reader input still counts durations "
+    "in the analysis_window argument while a reader counts them in B/rate - x a recording made of "
     "bursts of m-1, m, m+1 windows, bursts separated by s and s+1 quiet windows and one burst of 2M+1 windows "
     "(m,s,M = expected window counts) in generated order, with an optional partial last window. Oracle: counts "
     "from exact rationals (within 1e-9 of an integer -> that integer, else ceil for min, floor for max/silence), "
@@ -27,7 +29,7 @@ RULE = (
     "enumeration of 'reject_grid' -> ValueError iff the statement's predicate, success otherwise. "
     "Non-trivial = some duration is an exact decimal multiple of w whose float quotient is not an integer."
 )
-MUST_HIT = ["hostile_min", "hostile_max", "hostile_sil", "input_reader", "event_of_exactly_minwin",
+MUST_HIT = ["hostile_min", "hostile_max", "hostile_sil", "input_reader", "event_of_exactly_minwin", "window_not_whole_samples",
             "grid_reject", "grid_accept"]
 ASSUMPTIONS = [
     "quotients between 1e-11 and 1e-8 from an integer are never generated (statement says 1e-9, code uses 1e-10)",
@@ -46,9 +48,13 @@ G_RATE = (10, 1000, 16000)
 
 
 def dur_value(spec, w):
-    """spec = [k, form]; form 'mul' -> Decimal(k)*Decimal(w); 'third'/'half' non-multiples."""
+    """spec = [k, form]; form 'mul' -> Decimal(k)*Decimal(w); 'third'/'half' non-multiples.
+    w is a decimal literal (str) or, for windows that are not a whole number of
+    samples, the float window itself."""
     k, form = spec
     if form == "mul":
+        if isinstance(w, float):
+            return k * w
         return float(Decimal(k) * Decimal(w))
     if form == "third":
         return (k + 1 / 3) * float(w)
@@ -74,21 +80,35 @@ def make_audio(pat, B, tail):
 def check_case(case, rec):
     if "grid" in case:
         return check_grid(case, rec)
-    sr, wlit = case["sr"], case["w"]
-    w = float(wlit)
-    B = int(Fraction(wlit) * sr)
-    if Fraction(wlit) * sr != B or B == 0:
-        raise HarnessError("window must be an integral number of samples")
+    sr = case["sr"]
+    classes = set()
+    if case.get("wf"):
+        # a window that is NOT a whole number of samples: blocks hold floor(w*rate)
+        # samples, but for non-reader inputs durations are still counted in w
+        B, frac = case["wf"]
+        w = (B + frac) / sr
+        wlit = w
+        q = Fraction(w) * sr
+        if not (B + Fraction(1, 1000) < q < B + 1 - Fraction(1, 1000)):
+            raise HarnessError("fractional window too close to a sample boundary")
+        classes.add("window_not_whole_samples")
+    else:
+        wlit = case["w"]
+        w = float(wlit)
+        B = int(Fraction(wlit) * sr)
+        if Fraction(wlit) * sr != B or B == 0:
+            raise HarnessError("window must be an integral number of samples")
     via_reader = case["via_reader"]
     # effective window the statement refers to
     w_eff = (B / sr) if via_reader else w
+    if case.get("wf"):
+        wlit = w_eff  # durations are built around the window that counts for this input kind
     mind = dur_value(case["min"], wlit)
     maxd = dur_value(case["max"], wlit)
     sild = dur_value(case["sil"], wlit) if case["sil"][0] or case["sil"][1] != "mul" else 0
     kmin, g1 = window_count(mind, w_eff, "min")
     kmax, g2 = window_count(maxd, w_eff, "max")
     ksil, g3 = window_count(sild, w_eff, "sil")
-    classes = set()
     if g1 or g2 or g3:
         rec.extra["grey_skipped"] += 1
         return
@@ -169,6 +189,9 @@ def explicit_cases():
         dict(base, w="0.02", min=[7, "mul"], max=[29, "mul"], sil=[7, "mul"]),
         dict(base, w="0.03", sr=8000, min=[9, "mul"], max=[19, "third"], sil=[0, "mul"], drop=True, strict=True),
         dict(base, w="0.1", min=[3, "mul"], max=[3, "mul"], sil=[2, "half"], order="fgh"),
+        dict(base, sr=10, wf=[2, 0.5], min=[2, "mul"], max=[4, "mul"], sil=[1, "mul"]),
+        dict(base, sr=10, wf=[2, 0.5], min=[2, "mul"], max=[4, "mul"], sil=[1, "mul"], via_reader=True),
+        dict(base, sr=100, wf=[5, 0.75], min=[3, "third"], max=[30, "mul"], sil=[0, "mul"]),
         {"grid": [0.07, 0.1, 0.05, 0.01, 1000]},
         {"grid": [0.07, 0.07, 0.0, 0.01, 1000]},
         {"grid": [0.3, 0.3, 0.3, 0.1, 16000]},
@@ -187,8 +210,13 @@ def strategy(draw):
     fsil = draw(st.sampled_from(["mul", "mul", "third", "half"]))
     order = "".join(draw(st.permutations("abcdefgh")))[: draw(st.integers(2, 8))]
     B = int(Fraction(w) * sr)
+    wf = None
+    if draw(st.integers(0, 3)) == 0:
+        sr = draw(st.sampled_from([10, 100, 1000]))
+        B = draw(st.integers(1, 8))
+        wf = [B, draw(st.sampled_from([0.25, 0.5, 0.75]))]
     return {
-        "sr": sr, "w": w,
+        "sr": sr, "w": w, "wf": wf,
         "min": [kmin if fmin == "mul" else kmin - 1, fmin],
         "max": [kmax, fmax], "sil": [ksil, fsil],
         "drop": draw(st.booleans()), "strict": draw(st.booleans()),
